@@ -12,6 +12,11 @@
 namespace bat {
 using namespace nifly;
 
+// Coarse progress marker: which API entry point is running.  Fault-enumeration harnesses point
+// this at vf::set_step so that a hang or stack exhaustion can be attributed to the entry point.
+inline void (*g_step_hook)(const char*) = nullptr;
+inline void step(const char* s) { if (g_step_hook) g_step_hook(s); }
+
 inline std::string vf_hex(uint64_t v) { char b[20]; snprintf(b, sizeof b, "%016llx", (unsigned long long) v); return b; }
 
 // Output sink: either canonical text (snapshots that get compared / shown) or a running hash only
@@ -69,6 +74,7 @@ inline Out shape_out(NifFile& nif, NiShape* shape, const Opt& opt) {
 						| (shape->HasVertexColors() ? 16 : 0) | (shape->IsSkinned() ? 32 : 0) | (shape->HasData() ? 64 : 0)
 						| (shape->HasSkinInstance() ? 128 : 0) | (shape->HasShaderProperty() ? 256 : 0) | (shape->HasAlphaProperty() ? 512 : 0));
 	o += "\n";
+	step("geometry getters");
 	if (opt.heavy) {
 		std::vector<Vector3> verts;
 		if (nif.GetVertsForShape(shape, verts)) { o += " verts:"; for (auto& v : verts) v3(o, v); o += "\n"; }
@@ -92,10 +98,12 @@ inline Out shape_out(NifFile& nif, NiShape* shape, const Opt& opt) {
 		std::vector<Triangle> tris;
 		if (shape->GetTriangles(tris)) { o += " tris:"; for (auto& t : tris) { u(o, t.p1); u(o, t.p2); u(o, t.p3); } o += "\n"; }
 	}
+	step("GetBounds/GetParentNode");
 	if (opt.bounds) { auto b = shape->GetBounds(); o += " bounds:"; v3(o, b.center); f32(o, b.radius); o += "\n"; }
 	o += " xform:"; xf(o, shape->GetTransformToParent()); o += "\n";
 	if (auto parent = nif.GetParentNode(shape)) o += " parent='" + parent->name.get() + "'\n";
 	// shader
+	step("GetShader");
 	if (auto sh = nif.GetShader(shape)) {
 		o += std::string(" shader ") + sh->GetBlockName() + " '" + sh->name.get() + "' type="; u(o, sh->GetShaderType());
 		u(o, (sh->IsSkinTinted() ? 1 : 0) | (sh->IsFaceTinted() ? 2 : 0) | (sh->IsSkinned() ? 4 : 0) | (sh->IsDoubleSided() ? 8 : 0) | (sh->IsModelSpace() ? 16 : 0)
@@ -112,6 +120,7 @@ inline Out shape_out(NifFile& nif, NiShape* shape, const Opt& opt) {
 	if (auto m = nif.GetMaterialProperty(shape)) o += std::string(" material '") + m->name.get() + "'\n";
 	if (auto m = nif.GetStencilProperty(shape)) o += std::string(" stencil '") + m->name.get() + "'\n";
 	if (auto m = nif.GetTexturingProperty(shape)) { o += std::string(" texprop '") + m->name.get() + "' n="; u(o, m->textureCount); o += "\n"; }
+	step("texture getters");
 	for (uint32_t slot = 0; slot < 10; slot++) {
 		std::string tex;
 		uint32_t k = nif.GetTextureSlot(shape, tex, slot);
@@ -128,6 +137,7 @@ inline Out shape_out(NifFile& nif, NiShape* shape, const Opt& opt) {
 		if (bin) { o += " bintangents="; u(o, tg.size()); u(o, bt.size()); o += "\n"; }
 	}
 	// skin
+	step("GetShapeBoneList");
 	std::vector<std::string> bones;
 	nif.GetShapeBoneList(shape, bones);
 	std::vector<int> boneIds;
@@ -137,8 +147,11 @@ inline Out shape_out(NifFile& nif, NiShape* shape, const Opt& opt) {
 	if (!opt.index_free) for (auto i : boneIds) u(o, (unsigned) i);
 	o += "\n";
 	MatTransform t;
+	step("GetShapeTransformGlobalToSkin");
 	if (nif.GetShapeTransformGlobalToSkin(shape, t)) { o += " g2s:"; xf(o, t); o += "\n"; }
+	step("CalcShapeTransformGlobalToSkin");
 	if (nif.CalcShapeTransformGlobalToSkin(shape, t)) { o += " calc-g2s\n"; }
+	step("per-bone getters");
 	for (uint32_t bi = 0; bi < bones.size() && bi < opt.max_items; bi++) {
 		if (nif.GetShapeTransformSkinToBone(shape, bi, t)) { o += " s2b"; u(o, bi); xf(o, t); o += "\n"; }
 		MatTransform t2;
@@ -156,6 +169,7 @@ inline Out shape_out(NifFile& nif, NiShape* shape, const Opt& opt) {
 		}
 		shape->GetBoneID(hdr, bones[bi]);
 	}
+	step("GetShapePartitions");
 	{
 		NiVector<BSDismemberSkinInstance::PartitionInfo> pinfo;
 		std::vector<int> triParts;
@@ -166,6 +180,7 @@ inline Out shape_out(NifFile& nif, NiShape* shape, const Opt& opt) {
 			o += "\n";
 		}
 	}
+	step("GetShapeSegments");
 	{
 		NifSegmentationInfo inf;
 		std::vector<int> triParts;
@@ -187,6 +202,7 @@ inline std::string model_text(NifFile& nif, const Opt& opt = Opt()) {
 	Out o;
 	o.text = !opt.hash_only;
 	auto& hdr = nif.GetHeader();
+	step("header getters");
 	o += "valid="; u(o, nif.IsValid()); o += "unknown="; u(o, nif.HasUnknown()); o += "terrain="; u(o, nif.IsTerrain());
 	o += "ver='" + hdr.GetVersion().GetVersionInfo() + "'\n";
 	o += "creator='" + hdr.GetCreatorInfo() + "' export='" + hdr.GetExportInfo() + "'\n";
@@ -211,6 +227,7 @@ inline std::string model_text(NifFile& nif, const Opt& opt = Opt()) {
 	nif.GetRootTranslation(rt);
 	o += "roottrans:"; v3(o, rt); o += "\n";
 	std::set<NiObject*> reach;
+	step("GetTree");
 	if (opt.reachable_only) {
 		std::vector<NiObject*> tree;
 		nif.GetTree(tree);
@@ -230,8 +247,11 @@ inline std::string model_text(NifFile& nif, const Opt& opt = Opt()) {
 		xf(o, n->GetTransformToParent());
 		if (auto p = nif.GetParentNode(n)) o += "parent='" + p->name.get() + "' ";
 		MatTransform t;
+		step("GetNodeTransformToParent");
 		if (nif.GetNodeTransformToParent(n->name.get(), t)) o += "tp ";
+		step("GetNodeTransformToGlobal");
 		if (nif.GetNodeTransformToGlobal(n->name.get(), t)) { o += "tg:"; xf(o, t); }
+		step("node getters");
 		o += "candel="; u(o, NifFile::CanDeleteNode(n));
 		o += "children="; u(o, nif.GetChildren<NiObject>(n, true).size()); u(o, nif.GetChildren<NiNode>(n).size()); u(o, nif.GetChildren<NiShape>(n).size());
 		if (!opt.index_free) { o += "id="; u(o, nif.GetBlockID(n)); o += nif.GetNodeName(nif.GetBlockID(n)); }
@@ -242,6 +262,7 @@ inline std::string model_text(NifFile& nif, const Opt& opt = Opt()) {
 	for (auto& p : parts) o += p;
 	parts.clear();
 	// tree
+	step("GetTree");
 	{
 		std::vector<NiObject*> tree;
 		nif.GetTree(tree);
@@ -257,6 +278,7 @@ inline std::string model_text(NifFile& nif, const Opt& opt = Opt()) {
 		o += "\n";
 	}
 	// shapes
+	step("GetShapes");
 	auto shapes = nif.GetShapes();
 	auto names = nif.GetShapeNames();
 	if (!opt.reachable_only) { o += "shapes="; u(o, shapes.size()); u(o, names.size()); o += "\n"; }
@@ -266,6 +288,7 @@ inline std::string model_text(NifFile& nif, const Opt& opt = Opt()) {
 	}
 	if (opt.index_free) std::sort(parts.begin(), parts.end());
 	for (auto& p : parts) o += p;
+	step("named lookups / enumerators");
 	// named lookups
 	if (auto b = nif.FindBlockByName<NiNode>("Scene Root")) o += "found scene root\n";
 	if (auto b = nif.FindBlockByName<BSXFlags>("BSX")) { o += "bsx="; u(o, b->integerData); o += "\n"; }
